@@ -87,6 +87,9 @@ class StochasticSolver(ABC):
             Step size used.
         """
 
+    def _reset_state(self):
+        """Clear solver specific state carried between update steps."""
+
     @abstractmethod
     def set_failed_epoch(self):
         """Set internal state on failed epoch."""
@@ -136,6 +139,8 @@ class StochasticSolver(ABC):
         # Setup loop variables
         model = initial_model.copy()
         self._nfails = 0
+        # A solve depends only on its arguments, not on earlier solves
+        self._reset_state()
 
         best_model = model.copy()
         f_est_prev = f_est
@@ -320,6 +325,13 @@ class Adam(StochasticSolver):
         self._v: List[np.ndarray] = []
         self._v_prev: List[np.ndarray] = []
 
+    def _reset_state(self):  # noqa: D102
+        self._total_iterations = 0
+        self._m = []
+        self._m_prev = []
+        self._v = []
+        self._v_prev = []
+
     def set_failed_epoch(  # noqa: D102
         self,
     ):
@@ -387,6 +399,9 @@ class Adagrad(StochasticSolver):
             max_iters,
             printitn,
         )
+        self._gnormsum = 0.0
+
+    def _reset_state(self):  # noqa: D102
         self._gnormsum = 0.0
 
     def set_failed_epoch(  # noqa: D102
